@@ -5,7 +5,7 @@ tie:     lean/RV/Model/Transform.lean run on IEEE doubles (drv_c12) vs every exp
          reb_particles_transform_* routine, per component, bit for bit
 search:  round trip / COM / variant-agreement asserted on the real code (fsum oracle)
 """
-import ctypes, math, os, sys
+import ctypes, json, math, os, subprocess, sys
 sys.path.insert(0, os.path.dirname(os.path.abspath(__file__)))
 from common import *
 
@@ -143,6 +143,18 @@ def run(c):
             worst["jac_rt"] = max(worst.get("jac_rt", 0), e)
             if not e <= 1e-7:
                 searchfail.append(("jacobi round trip does not return the input", dict(n=n, na=na, ms=ms, comp=k, xs=comps[k], err=e)))
+        for inv, cs, srcattr in (("jacobi_to_inertial_pos", COMPS_POS, COMPS_POS), ("jacobi_to_inertial_acc", COMPS_ACC, COMPS_POS)):
+            fw = arr(n)
+            for i in range(n):
+                fw[i].m = jac[i].m
+                for kd, ks in zip(cs, srcattr):
+                    setattr(fw[i], kd, getattr(jac[i], ks))
+            b2 = arr(n)
+            fn(inv)(b2, fw, src, N, NA)
+            for kd, ks in zip(cs, srcattr):
+                e = max(relerr(getattr(b2[i], kd), comps[ks][i]) for i in range(n))
+                if not e <= 1e-7:
+                    searchfail.append((inv + " does not invert inertial_to_jacobi (variants disagree)", dict(n=n, na=na, ms=ms, comp=ks, xs=comps[ks], err=e)))
         # ------------------------------------------------ Jacobi inverse variants (input: arbitrary jacobi set)
         pj = arr(n); setp(pj, ms, comps, allc)
         Mtot = math.fsum(ms[:na]) * (1.0 if rng.chance(0.8) else rng.uniform(0.5, 2))
@@ -181,6 +193,12 @@ def run(c):
             fn(inv)(back, out, N, NA)
             # heliocentric round trips are ill-conditioned when m0 << total mass; scale tolerance
             cond = max(1.0, math.fsum(abs(m) for m in ms[:na]) / abs(ms[0]))
+            b2 = arr(n); setp(b2, ms, comps, [])
+            fn(inv[:-3])(b2, out, N, NA)      # the position-only inverse
+            for k in COMPS_POS:
+                e = max(relerr(getattr(b2[i], k), comps[k][i]) for i in range(n))
+                if not e <= 1e-9 * cond:
+                    searchfail.append((inv[:-3] + " does not invert the forward map (variants disagree)", dict(n=n, na=na, ms=ms, comp=k, xs=comps[k], err=e)))
             for k in COMPS_POS + COMPS_VEL:
                 e = max(relerr(getattr(back[i], k), comps[k][i]) for i in range(n))
                 worst[inv[:4] + "_rt"] = max(worst.get(inv[:4] + "_rt", 0), e / cond)
@@ -224,6 +242,19 @@ def run(c):
             worst["bary_rt"] = max(worst.get("bary_rt", 0), e / cond)
             if not e <= 1e-9 * cond:
                 searchfail.append(("barycentric round trip does not return the input", dict(n=n, na=na, ms=ms, comp=k, xs=comps[k], err=e)))
+        # every inverse variant must invert the forward map and agree with the others
+        for inv, cs, srcattr in (("barycentric_to_inertial_pos", COMPS_POS, COMPS_POS), ("barycentric_to_inertial_acc", COMPS_ACC, COMPS_POS)):
+            fw = arr(n)
+            for i in range(n):
+                fw[i].m = out[i].m
+                for kd, ks in zip(cs, srcattr):
+                    setattr(fw[i], kd, getattr(out[i], ks))
+            b2 = arr(n)
+            fn(inv)(b2, fw, N, NA)
+            for kd, ks in zip(cs, srcattr):
+                e = max(relerr(getattr(b2[i], kd), comps[ks][i]) for i in range(n))
+                if not e <= 1e-9 * cond:
+                    searchfail.append((inv + " does not invert inertial_to_barycentric (variants disagree)", dict(n=n, na=na, ms=ms, comp=ks, xs=comps[ks], err=e)))
         if na >= 1 and not abs(back[0].m - ms[0]) <= 1e-9 * abs(Mtot):
             searchfail.append(("barycentric round trip does not return m0", dict(n=n, na=na, ms=ms, got=back[0].m)))
         pb = arr(n); setp(pb, ms, comps, allc)
@@ -278,6 +309,33 @@ def run(c):
         if case < 2:
             c.sample({"N": n, "N_active": na, "masses": ms[:6], "x": comps["x"][:6], "line": lines[-1][:200]})
 
+    # ------------------------------------------------ call sites: same split for a map and its inverse
+    shim = os.path.join(d, "c12_trace.so")
+    p = subprocess.run(["gcc", "-shared", "-fPIC", "-O1", "-w", os.path.join(ROOT, "harness", "c12_trace.c"), "-ldl", "-o", shim],
+                       capture_output=True, text=True)
+    if p.returncode != 0:
+        raise Infra("c12_trace shim: " + p.stderr[-1000:])
+    env = dict(os.environ, LD_PRELOAD=shim, RBV_LIB=os.path.join(d, "librebound" + SUFFIX))
+    q = subprocess.run(["/venv/bin/python", os.path.join(ROOT, "rv", "c12_worker.py"), d, shim, str(c.seed)],
+                       capture_output=True, text=True, env=env, timeout=900)
+    res = [l for l in q.stdout.splitlines() if l.startswith("RESULT ")]
+    if q.returncode != 0 or not res:
+        raise Infra("c12 worker failed: " + (q.stdout + q.stderr)[-1500:])
+    sites = json.loads(res[0][7:])
+    ncalls = 0
+    seen_routines = set()
+    for r in sites:
+        if "error" in r:
+            continue
+        ncalls += r["ncalls"]
+        seen_routines |= set(r["routines"])
+        c.count(("callsite", r["integ"], json.dumps(r["opts"], sort_keys=True), r["safe"], r["split"]), nontrivial=r["split"] != "all")
+        if len(r["pairs"]) > 1:
+            searchfail.append(("integrator call sites hand different (N, N_active) splits to a transformation and its inverse",
+                               dict(config=r, note="within one run of a fixed particle set every reb_particles_transform_* call must use the same split, otherwise forward and inverse maps are not mutual inverses")))
+    c.cov["callsite_configs_traced"] = len(sites)
+    c.cov["callsite_transform_calls_traced"] = ncalls
+    c.cov["callsite_routines_seen"] = sorted(seen_routines)
     c.log("running %d model lines through drv_c12" % len(lines))
     got = run_driver(exe, lines)
     ndis = 0
